@@ -813,8 +813,12 @@ class ThresholdCounter:
         to integer counts.
         """
         if iterable is not None:
-            if callable(getattr(iterable, 'iteritems', None)):
-                for key, count in iterable.iteritems():
+            iteritems = getattr(iterable, 'iteritems', None)
+            if not callable(iteritems):
+                # dicts and other mappings on Python 3
+                iteritems = getattr(iterable, 'items', None)
+            if callable(iteritems):
+                for key, count in iteritems():
                     for i in range(count):
                         self.add(key)
             else:
